@@ -1,1 +1,23 @@
-// gen_project
+//! G-PROJECT: model-first generator of Isograph projects (schema + schema extension + iso
+//! program + config), plus helpers to write a project to disk, compile it in-process or through
+//! the real CLI, and derive single-fault mutants / metamorphic variants.
+//!
+//! Usage: `tape_strategy()` yields `Vec<u16>` tapes; `build_project(tape, &GenConfig)` is a pure
+//! function tape -> `Project` (the model the oracles consult); `render(&project)` gives the files.
+pub mod build;
+pub mod compile;
+pub mod model;
+pub mod mutate;
+pub mod print;
+pub mod tape;
+
+pub use build::{build_project, GenConfig};
+pub use model::*;
+pub use print::{artifact_dir, render};
+
+use proptest::prelude::*;
+
+/// Strategy for choice tapes. Shrinks towards shorter tapes with smaller cells = simpler projects.
+pub fn tape_strategy(len: usize) -> impl Strategy<Value = Vec<u16>> {
+    prop::collection::vec(any::<u16>(), 0..=len)
+}
